@@ -5,14 +5,14 @@ import (
 	"go/ast"
 	"go/format"
 	"go/importer"
+	"go/parser"
+	"go/token"
+	"go/types"
 	"io"
 	"os"
 	"regexp"
-	"go/parser"
-	"go/token"
-	"strconv"
-	"go/types"
 	"sort"
+	"strconv"
 	"strings"
 
 	"golang.org/x/tools/go/packages"
@@ -934,4 +934,43 @@ func checkArgsRejected(job JobCfg, res *Result) {
 			return
 		}
 	}
+}
+
+// checkLocks is the static half of C05's last mechanism ("sync imported under a qualifier that
+// cannot be shadowed"): every lock field of every mock is the standard library's sync.RWMutex.
+func checkLocks(c *Checked) string {
+	for _, d := range c.file.Decls {
+		gd, ok := d.(*ast.GenDecl)
+		if !ok || gd.Tok != token.TYPE {
+			continue
+		}
+		for _, sp := range gd.Specs {
+			ts := sp.(*ast.TypeSpec)
+			st, ok := ts.Type.(*ast.StructType)
+			if !ok {
+				continue
+			}
+			for _, f := range st.Fields.List {
+				for _, n := range f.Names {
+					if !strings.HasPrefix(n.Name, "lock") {
+						continue
+					}
+					sel, ok := f.Type.(*ast.SelectorExpr)
+					if !ok || sel.Sel.Name != "RWMutex" {
+						return fmt.Sprintf("%s.%s is not a sync.RWMutex", ts.Name.Name, n.Name)
+					}
+					x, ok := sel.X.(*ast.Ident)
+					if !ok {
+						return fmt.Sprintf("%s.%s: unexpected lock type", ts.Name.Name, n.Name)
+					}
+					if pn, ok := c.info.Uses[x].(*types.PkgName); ok {
+						if pn.Imported().Path() != "sync" {
+							return fmt.Sprintf("%s.%s is %s.RWMutex of package %q, not the standard library's sync.RWMutex", ts.Name.Name, n.Name, x.Name, pn.Imported().Path())
+						}
+					}
+				}
+			}
+		}
+	}
+	return ""
 }
